@@ -31,8 +31,8 @@ def build(repo, verif, workdir, log):
     return os.path.join(target, "debug", "twin")
 
 
-def run(binary, args, timeout=300):
-    p = subprocess.run([binary] + [str(a) for a in args], capture_output=True, text=True, timeout=timeout)
+def run(binary, args, timeout=300, crit="bytes"):
+    p = subprocess.run([binary] + [str(a) for a in args], capture_output=True, text=True, timeout=timeout, env=dict(os.environ, TWIN_CRIT=crit))
     out = p.stdout
     w = re.search(r"^WITNESS kind=(\S+) input=(.*)$", out, re.M)
     d = re.search(r"^DETAIL (.*)$", out, re.M)
